@@ -63,8 +63,8 @@ EvalB == /\ pos = 2
          /\ Ub' = IF Case.hasop THEN SemM(Case.b, Case.n) ELSE <<>>
          /\ pos' = 3 /\ UNCHANGED <<tid, Ua>>
 
-\* "same" | "diff" | "diff-kind" | "overflow"
-SemRel == IF Case.ta # Case.tb \/ Case.wa # Case.wb THEN "diff-kind"
+\* "same" | "diff" | "kind" (different measurement kind / wire list) | "overflow"
+SemRel == IF Case.ta # Case.tb \/ Case.wa # Case.wb THEN "kind"
           ELSE IF ~Case.hasop THEN "same"
           ELSE IF ~InBound(Ua) \/ ~InBound(Ub) THEN "overflow"
           ELSE IF EqExact(Ua, Ub) THEN "same" ELSE "diff"
@@ -75,7 +75,7 @@ PairClause(sem) ==
    ELSE IF Case.ident /\ Case.eab # "T" THEN "identical-not-equal"
    ELSE IF Case.ident /\ Case.hab # "T" THEN "identical-hash-differs"
    ELSE IF Case.eab = "T" /\ sem = "diff" THEN "equal-but-different-map"
-   ELSE IF Case.eab = "T" /\ sem = "diff-kind" THEN "equal-but-different-kind"
+   ELSE IF Case.eab = "T" /\ sem = "kind" THEN "equal-but-different-kind"
    ELSE IF Case.ident /\ sem # "same" THEN "spec-inconsistent"          \* identical data must denote the same map
    ELSE "ok"
 TripleClause ==
@@ -83,13 +83,16 @@ TripleClause ==
         (IF Case.tri[1] = "T" /\ Case.tri[2] = "T" /\ Case.tri[3] # "T" THEN "not-transitive" ELSE "identical-not-equal")
    ELSE "ok"
 \* evidence flags (never part of the clause)
-HashFlag == IF Case.eab = "T" /\ Case.hab = "F" /\ ~Case.ident THEN "eq-hash-differs"
-            ELSE IF Case.eab = "F" /\ Case.hab = "T" THEN "hash-collision" ELSE "-"
-AttrFlag == IF Case.eab = "T" /\ Case.xa # Case.xb THEN "attr-ignored" ELSE "-"
+\* (tuples longer than 80 characters are pretty-printed over several lines: the flags are kept short)
+\*   "hd" equal but hashes differ   "hc" unequal with equal hashes (collision, allowed)   "ai" attribute ignored by equal
+\*   "a" / "d" the structural model agrees / drifts from the code
+HashFlag == IF Case.eab = "T" /\ Case.hab = "F" /\ ~Case.ident THEN "hd"
+            ELSE IF Case.eab = "F" /\ Case.hab = "T" THEN "hc" ELSE "-"
+AttrFlag == IF Case.eab = "T" /\ Case.xa # Case.xb THEN "ai" ELSE "-"
 \* the structural model: equality of canonical encodings / of model keys, compared with the code's answers
-EqModelFlag == IF ~Case.enc THEN "-" ELSE IF (Case.ra = Case.rb) = (Case.eab = "T") THEN "agree" ELSE "drift"
+EqModelFlag == IF ~Case.enc THEN "-" ELSE IF (Case.ra = Case.rb) = (Case.eab = "T") THEN "a" ELSE "d"
 KeyModelFlag == IF ~Case.enc \/ Case.hab \notin {"T", "F"} THEN "-"
-                ELSE IF (KM!OpKey(Case.ra) = KM!OpKey(Case.rb)) = (Case.hab = "T") THEN "agree" ELSE "drift"
+                ELSE IF (KM!OpKey(Case.ra) = KM!OpKey(Case.rb)) = (Case.hab = "T") THEN "a" ELSE "d"
 
 Decide ==
   /\ pos = 3
